@@ -134,7 +134,9 @@ class ExprGen:
             return ("c2", s, g1, g2), rv
         if k == "ec":
             f, _ = self.gen(types, depth + 1, True, allow_throw)
-            return ("ec", f, r.randint(1000, 1999)), True
+            # catchers numbered from 5000 rethrow what they are handed (only where a throw may escape)
+            c = r.randint(5000, 5999) if (allow_throw and r.random() < 0.3) else r.randint(1000, 1999)
+            return ("ec", f, c), True
         if k == "to":
             ts = [r.randrange(K) for _ in range(r.choice([1, 1, 2, 3]))]
             f, rv = self.gen(types, depth + 1, need_value, allow_throw)
@@ -245,7 +247,7 @@ def to_cpp(t):
     if k == "c2":
         return "sigc::compose(%s, %s, %s)" % (to_cpp(t[1]), to_cpp(t[2]), to_cpp(t[3]))
     if k == "ec":
-        return "sigc::exception_catch(%s, Catcher{%d})" % (to_cpp(t[1]), t[2])
+        return "sigc::exception_catch(%s, %s{%d})" % (to_cpp(t[1]), "CatcherRe" if t[2] >= 5000 else "Catcher", t[2])
     if k == "to":
         return "sigc::track_object(%s, %s)" % (to_cpp(t[1]), ", ".join("*g_tr[%d]" % x for x in t[2]))
     raise AssertionError(k)
